@@ -143,7 +143,9 @@ Definition wacq_by_tag (ix : tix) (p : nat) : wres :=
                           releases them afterwards.  Partitions() = PVisit false false.
    PQuery m limit failat: GetJournals (waiting, VF_DO_NOT_RELEASE; Journals.GetOrCreate fails at
                           callback number failat; limit) followed by the cursor's life and close
-   PTrunc m zero szpos glob cancel : Truncate: skipping visit; a visited partition whose tag is in
+   PTrunc m zero szpos glob cancel ofail gfail : (ofail: tags whose journal fails to open in the visitor of
+                          the first phase - the partition is left alone; gfail: tags whose journal fails to
+                          open in truncateGlobally - acquired by GetJournalTags, released at once) Truncate: skipping visit; a visited partition whose tag is in
                           `zero` has size 0 and goes through deleteJournal (the size re-check under
                           the exclusive lock says "> 0" for tags in szpos); the others are kept for
                           truncateGlobally (run when glob); ctx is cancelled at callback `cancel` *)
@@ -152,7 +154,7 @@ Inductive proc :=
 | PById (p : nat) (lock : bool)
 | PVisit (skip norel : bool) (m : list nat) (abort : option nat)
 | PQuery (m : list nat) (limit : nat) (failat : option nat)
-| PTrunc (m zero szpos : list nat) (glob : bool) (cancel : option nat).
+| PTrunc (m zero szpos : list nat) (glob : bool) (cancel : option nat) (ofail gfail : list nat).
 
 (* The one place where the model follows a choice of the code under repair: does GetJournals
    release the partition whose journal failed to open (proposed_fixes/C14-getjournals-leak.diff)?
@@ -198,14 +200,14 @@ Definition frame0 : frame := {| f_rest := []; f_vis := []; f_res := []; f_gl := 
 Record actor := { a_prog : list proc; a_cur : proc; a_ctl : ctl; a_f : frame; a_lost : list nat }.
 
 Definition p_skip (p : proc) : bool :=
-  match p with PVisit s _ _ _ => s | PTrunc _ _ _ _ _ => true | _ => false end.
+  match p with PVisit s _ _ _ => s | PTrunc _ _ _ _ _ _ _ => true | _ => false end.
 Definition p_norel (p : proc) : bool :=
   match p with PVisit _ n _ _ => n | PQuery _ _ _ => true | _ => false end.
 Definition p_m (p : proc) : list nat :=
-  match p with PVisit _ _ m _ => m | PQuery m _ _ => m | PTrunc m _ _ _ _ => m | _ => [] end.
+  match p with PVisit _ _ m _ => m | PQuery m _ _ => m | PTrunc m _ _ _ _ _ _ => m | _ => [] end.
 Definition is_visit (p : proc) : bool :=
-  match p with PVisit _ _ _ _ | PQuery _ _ _ | PTrunc _ _ _ _ _ => true | _ => false end.
-Definition is_trunc (p : proc) : bool := match p with PTrunc _ _ _ _ _ => true | _ => false end.
+  match p with PVisit _ _ _ _ | PQuery _ _ _ | PTrunc _ _ _ _ _ _ _ => true | _ => false end.
+Definition is_trunc (p : proc) : bool := match p with PTrunc _ _ _ _ _ _ _ => true | _ => false end.
 Definition is_query (p : proc) : bool := match p with PQuery _ _ _ => true | _ => false end.
 
 Fixpoint remove1 (x : nat) (l : list nat) : list nat :=
@@ -254,7 +256,7 @@ Definition start (p : proc) : ctl :=
 (* end of a Truncate callback: `return ctx.Err() == nil` *)
 Definition trunc_cont (a : actor) : actor :=
   match a_cur a with
-  | PTrunc _ _ _ _ cancel =>
+  | PTrunc _ _ _ _ cancel _ _ =>
       let f := a_f a in
       with_cf a (if opt_is cancel (f_n f) then CFin else CNext) (f_count f)
   | _ => with_ctl a CIdle
@@ -269,7 +271,7 @@ Definition after_visit (a : actor) : actor :=
   match a_cur a with
   | PVisit _ norel _ _ => with_ctl a (if norel then CHold (f_vis f) else CIdle)
   | PQuery _ _ _ => with_ctl a (if f_err f then CRel (f_res f) else CHold (f_res f))
-  | PTrunc _ _ _ glob _ => with_ctl a (if glob then CGNext else CIdle)
+  | PTrunc _ _ _ glob _ _ _ => with_ctl a (if glob then CGNext else CIdle)
   | _ => with_ctl a CIdle
   end.
 
@@ -292,8 +294,9 @@ Definition callback (ix : tix) (a : actor) (x : nat) : actor :=
       else if limit_hit (S (length (f_res f))) limit
            then with_cf a CFin (f_keep f x true)
            else with_cf a CNext (f_keep f x false)
-  | PTrunc _ zero _ _ _ =>
-      if mem (tag_of ix x) zero then with_ctl a (CDj x DjLock false)
+  | PTrunc _ zero _ _ _ ofail _ =>
+      if mem (tag_of ix x) ofail then trunc_cont a     (* Journals.GetOrCreate failed: `return ctx.Err() == nil` *)
+      else if mem (tag_of ix x) zero then with_ctl a (CDj x DjLock false)
       else trunc_cont (with_cf a (a_ctl a) (f_glob f x))
   | _ => with_ctl a CIdle
   end.
@@ -357,7 +360,7 @@ Definition astep (ix : tix) (a : actor) (c : nat) : tix * actor * bool * sres :=
       | (_, false) => (ix, dj_done a x g, false, Moved)
       end
   | CDj x DjSize g =>
-      let szpos := match a_cur a with PTrunc _ _ sz _ _ => sz | _ => [] end in
+      let szpos := match a_cur a with PTrunc _ _ sz _ _ _ _ => sz | _ => [] end in
       (ix, with_ctl a (CDj x (if mem (tag_of ix x) szpos then DjUnlockSz else DjDelete) g), false, Moved)
   | CDj x DjUnlockSz g =>
       match unlockx ix x with
@@ -382,7 +385,10 @@ Definition astep (ix : tix) (a : actor) (c : nat) : tix * actor * bool * sres :=
       | (ix', AGot _) => (ix', with_ctl a (CGCb x), false, Moved)
       | (_, ANotFound) => (ix, with_ctl a CGNext, false, Moved)
       end
-  | CGCb x => (ix, with_ctl a (CDj x DjLock true), false, Moved)
+  | CGCb x =>
+      (* truncateGlobally: Journals.GetOrCreate; when it fails: Release, continue *)
+      let gfail := match a_cur a with PTrunc _ _ _ _ _ _ gf => gf | _ => [] end in
+      (ix, with_ctl a (if mem (tag_of ix x) gfail then CGRel x else CDj x DjLock true), false, Moved)
   | CGRel x =>
       match release ix x with
       | Some ix' => (ix', with_ctl a CGNext, false, Moved)
@@ -431,7 +437,7 @@ Definition vis_held (a : actor) : list nat :=
   match a_cur a with
   | PVisit skip _ _ _ => if skip then f_vis f ++ f_rest f else f_vis f
   | PQuery _ _ _ => f_res f ++ (match a_ctl a with CCb x | CRelF x => [x] | _ => [] end)
-  | PTrunc _ _ _ _ _ => f_vis f ++ f_rest f
+  | PTrunc _ _ _ _ _ _ _ => f_vis f ++ f_rest f
   | _ => []
   end.
 
